@@ -627,6 +627,7 @@ def svd_pinv_event(tt_mod, A, ev, objs):
                                     'of the unfolding (max abs error %.2e, scale %.2e)' % (
                                         np.max(np.abs(got - exp)), np.max(np.abs(exp))))
         _scaled_repr_check(A, ow, lambda B: contract(B.pinv(index, threshold=thr).cores).reshape(M.shape), got, 'pinv')
+        _units_check(A, ow, lambda B: contract(B.pinv(index, threshold=thr).cores).reshape(M.shape), got, 'pinv', -1)
         return [p]
     opt = ev.get('opt') or dict(r=0, p=0, q=1, ol=True, orr=True)
     kw = {}
@@ -676,6 +677,8 @@ def svd_pinv_event(tt_mod, A, ev, objs):
         raise Mismatch('isometry', 'svd: v does not have orthonormal rows')
     if opt['p'] and opt['ol'] and opt['orr']:
         _scaled_repr_check(A, ow, lambda B: np.asarray(B.svd(index, **kw)[1]), s, 'svd (singular values)')
+    if opt['ol'] and opt['orr'] and not cut:
+        _units_check(A, ow, lambda B: np.asarray(B.svd(index, **kw)[1]), s, 'svd (singular values)', 1)
     return [u, v]
 
 
@@ -705,6 +708,23 @@ def _nonbinding_caps_check(A, op):
     if after.shape != before.shape or np.max(np.abs(after - before)) > 1e-9 * max(1.0, float(np.max(np.abs(before)))):
         raise Mismatch('value', '%s(max_rank=[1, 100, .., 1]) with a list that was used for another train before changed the '
                                 'tensor although no cap binds (max abs error %.2e)' % (f, np.max(np.abs(after - before))))
+
+
+def _units_check(A, ow, fn, ref, what, power):
+    """homogeneity: the same tensor in other units (first core x 2^e, exact in floating point; e = -80 puts every entry of
+    that core below any absolute round-off constant, e = 60 makes inverse singular values tiny) gives the result scaled by
+    2^(power*e)"""
+    if ow or metadata_problem(A):
+        return
+    ref = np.asarray(ref)
+    for e_ in (-80, 60):
+        B = A.copy()
+        B.cores[0] = B.cores[0] * 2.0 ** e_
+        got = np.asarray(fn(B)) * 2.0 ** (-power * e_)
+        if got.shape != ref.shape or np.max(np.abs(got - ref)) > 1e-7 * max(1e-300, float(np.max(np.abs(ref)))):
+            raise Mismatch('value', '%s: the same tensor in other units (first core x 2^%d) does not give the correspondingly scaled '
+                                    'result (relative deviation %.3e)' % (what, e_, (np.max(np.abs(got - ref)) / max(1e-300, float(np.max(np.abs(ref)))))
+                                                                           if got.shape == ref.shape else np.inf))
 
 
 def _scaled_repr_check(A, ow, fn, ref, what):
